@@ -183,6 +183,10 @@ def theorem_family(ew, enc, names, iflags=0x400000):
         if sig[xi] == "R" and k == "-" and optl in (["evex"], ["vex3"], ["vex"]) and sh in ("rvm", "rm", "rvmi", "rmi"):
             return "vex_reg" + ("32" if mode == 32 else "") + "_opt_" + optl[0]          # Props/C01FrontOpt.lean
         if sig[xi] == "R":
+            if "evex" in optl and sh in ("rvm", "rm", "rvmi", "rmi") and (k != "-" or any(o in ("z", "er", "sae") for o in optl)):
+                optl = [o for o in optl if o != "evex"]          # emitVexEvexR_evex_dec: neutral next to a decoration
+                if not optl and k == "-":
+                    return None
             if any(o not in ("z", "er", "sae", "rn", "rd", "ru", "rz") for o in optl):
                 return None
             if mode == 32:
